@@ -41,7 +41,8 @@ MANIFEST_ENTRY = {
         "any UTC offset, every integer depth/mup/leeway and every timing reference: ast_le_now, elapsed_eq, "
         "publish_in_range (AST <= publishTime <= now, whole second), tsbd_bounds, fat_eq, mup_positive / "
         "default_mup_positive, publish_quantised (publishTime = AST + k*p, lag < p), publish_mono, "
-        "publish_mono_across_restart, symbolic_age, symbolic_stable, month_year_stable_all_day, "
+        "publish_mono_across_restart, symbolic_age (today/month/year/now, unconditional), "
+        "symbolic_age_epoch_partial (clock >= epoch + 60 s), symbolic_stable, month_year_stable_all_day, "
         "symbolic_midnight, now_follows_clock; the calendar is a subtractive year/month walk whose order facts "
         "hold by construction. The hand-written model is tied to the code on every run by differential "
         "correspondence (real DashTiming objects, real live manifests under a controlled clock, the whole "
@@ -69,7 +70,7 @@ ASSUMPTIONS = [
     "now is a tz-aware UTC instant at or after 1970-01-01T00:00:00Z (every call site uses datetime.now(tz=UTC())); generators sweep 1970..2200",
     "explicit start instants are <= now (C08's quantifier); starts in the future are compared model-vs-code only",
     "elapsed time < 2^33 s (~272 years) so that timedelta.total_seconds() separates microseconds from whole seconds (float exactness bound of the integer model); timescale >= 1 and 1 <= segment_duration < 2^51",
-    "start=epoch is 'at least one minute old' only for clocks >= 1970-01-01T00:01:00Z (unsatisfiable otherwise for any implementation)",
+    "start=epoch is 'at least one minute old' only for clocks >= 1970-01-01T00:01:00Z (theorem symbolic_age_epoch_partial; unsatisfiable otherwise for any implementation; the excluded point is the open ledger entry epoch-start-young-before-1970-01-01T00:01Z, replayed every run; generators keep start=epoch inside the hypothesis)",
     "'publishTime never decreases' is read for requests that resolve to the same availabilityStartTime (a changed availabilityStartTime is a new presentation); across a roll-over of today/month/year it may step back by less than one period (theorem publish_mono_across_restart, witness in Props/C08.lean)",
     "naive explicit start strings (no Z/offset) are not instants; they make the handler fail with a TypeError (HTTP 500) - a C16 matter, not generated here",
 ]
@@ -1053,6 +1054,11 @@ def matches_finding(finding, failure):
     clauses = {x.get("clause") for x in failure.get("failures", [])} | {failure.get("clause")}
     if m.get("clause") not in clauses:
         return False
-    start = (failure.get("case") or {}).get("start")
+    case = failure.get("case") or {}
+    start = case.get("start")
     kind = start if isinstance(start, str) else "explicit"
-    return m.get("start") in (None, kind)
+    if m.get("start") not in (None, kind):
+        return False
+    if "now_below" in m and not all(n < m["now_below"] for n in case.get("nows", [m["now_below"]])):
+        return False
+    return True
